@@ -309,6 +309,9 @@ def run_shard(spec) -> ShardResult:
     elif spec["kind"] == "mini":
         run_hypothesis(PROP_ID, gen3d.st_mini(files), oracle, seed=spec["seed"], max_examples=spec["examples"],
                        result=res, to_json=c03.to_json, classify=classify)
+    elif spec["kind"] == "steered-hbond":
+        run_hypothesis(PROP_ID, gen3d.st_steered_hbond(files), oracle, seed=spec["seed"], max_examples=spec["examples"],
+                       result=res, to_json=c03.to_json, classify=lambda c: (classify(c)[0], list(classify(c)[1]) + [f"steered-{c['what']}-distance"]))
     elif spec["kind"] == "multimodel":
         run_hypothesis(PROP_ID, st_multimodel(files), oracle, seed=spec["seed"], max_examples=spec["examples"],
                        result=res, to_json=c03.to_json, classify=classify)
